@@ -942,3 +942,21 @@ def channel_passthrough(ctx):
         ctx.check(mir.short(d), ok, "a plain pass-through to the tokio channel end it wraps (no buffering, batching, filtering or reordering of its own)",
                   got=got, key="channel-passthrough")
     ctx.floor("channel wrapper functions", n, 5)
+
+
+def position_from_trade(ctx):
+    """the position a fill OPENS (first fill, or the remainder of a flip): every figure is the fill's own - side, price, |quantity|
+    as both the current and the peak size, the entry fee booked as realised cost, the fill's time (the unrealised estimate is C15.R6's)"""
+    POS = "barter::engine::state::position::Position"
+    b = ctx.ibody(ctx.find(name="from", self_adt=POS, trait="std::convert::From"))
+    rt = b.return_term()
+    f = {k: render(v) for k, v in zip(rt[2], rt[3])} if rt[0] == "agg" else {}
+    p = b.param_name(1)
+    want = {"instrument": "%s.instrument", "side": "%s.side", "price_entry_average": "%s.price", "quantity_abs": "Decimal::abs(%s.quantity)",
+            "quantity_abs_max": "Decimal::abs(%s.quantity)", "pnl_realised": "Neg::neg(%s.fees.fees)", "fees_enter": "%s.fees",
+            "time_enter": "%s.time_exchange", "time_exchange_update": "%s.time_exchange"}
+    want = {k: v % p for k, v in want.items()}
+    got = {k: f.get(k) for k in want}
+    ctx.check("Position::from(&Trade)", got == want and "Decimal::ZERO" in f.get("fees_exit", ""),
+              "a position opened by a fill takes side, price, |quantity| (current AND peak), entry fee (as realised cost) and time from that fill; "
+              "no exit fees yet", got={k: v for k, v in got.items() if want[k] != v} or f.get("fees_exit"), key="opened-from-fill")
